@@ -12,6 +12,21 @@
 //! for every absent (name, type) probe over the closure of the universe, an
 //! independent "matches-without-the-bit" / "covers (incl. wrap-around)"
 //! predicate is evaluated on the records the library returned.
+//!
+//! Three enumerations share the oracle: (1) the main product over the name
+//! universe of `slots()`; (2) the TYPE-axis sweep (`sweep_zones()`); (3) the
+//! below-the-cut sweep (`bc_slots()`): the full product of what may sit AT a
+//! delegation point (nothing / NS / NS+DS / NS + glue A at the cut owner) and
+//! at three sibling names plus one deeper name BELOW it (nothing / A / NS =
+//! occluded nested delegation / NS+DS / NS+A; thorough also DS alone, DNAME,
+//! SOA), with a plain name before and a second delegation after the
+//! subtree.  "Authoritative" is derived from RFC 4035 §2.3 / RFC 5155 §7.1
+//! only: strictly below ANY non-apex NS owner = not authoritative, so the
+//! top-most NS owner of a branch is the delegation point and an NS owner
+//! below it decides nothing.  A probe for a name below a cut is a referral:
+//! the delegation record of the top-most cut must be there (NS, no SOA, DS
+//! as present, or the opt-out proof) and nothing below the cut owns,
+//! matches or starts an interval.
 use bytes::Bytes;
 use domain::base::iana::{Class, DigestAlgorithm, Nsec3HashAlgorithm, Rtype, SecurityAlgorithm};
 use domain::base::name::{Name, ParsedName};
